@@ -198,6 +198,9 @@ func (mpt *MerklePatriciaTrie) Insert(path Path, value MPTSerializable) (Key, er
 	}
 
 	valueCopy := &SecureSerializableValue{eval}
+	// the nodes created below keep sub-slices of the path: like the value, the path is copied, so that the
+	// caller may re-use its buffer after the call
+	path = concat(path)
 	mpt.mutex.Lock()
 	defer mpt.mutex.Unlock()
 	var newRootHash Key
